@@ -43,8 +43,9 @@ def run(rep, pool, driver, tier):
     _kernels(rep, pool, driver, r, quick)
     _kernels_wh(rep, pool, driver, r, quick)
     _bad_header(rep, pool, driver, r, quick)
-    if not quick:
-        _sparse(rep, pool, driver, r)
+    # > 2^32 cells (sparse backing file): cheap, because the kernels only touch the requested rows;
+    # also in the quick tier (seeded change C06_b: 32-bit multiply in the flat index)
+    _sparse(rep, pool, driver, r)
 
 
 def _write_read(rep, pool, driver, r, quick):
